@@ -13,11 +13,11 @@ def run(ctx, replay=None):
     else:
         cfg = "MC_mqtttest_q.cfg" if ctx.tier == "quick" else "MC_mqtttest_t.cfg"
         res = pipeline.model_check(ctx, "MC_mqtttest", cfg, args=["-seed", str(ctx.seed)])
-        cases = pipeline.parse_cases(res.out)
+        cases = pipeline.parse_cases(res)
         if ctx.tier != "quick":
             # the exhaustive small configuration as well, so that thorough is a superset of quick
             res2 = pipeline.model_check(ctx, "MC_mqtttest", "MC_mqtttest_q.cfg")
-            cases += pipeline.parse_cases(res2.out)
+            cases += pipeline.parse_cases(res2)
         ctx.cov["exhaustive"] = ctx.tier == "quick"
         if not cases:
             raise vlib.Inconclusive("TLC exported no cases")
